@@ -180,6 +180,10 @@ def verify_files(w, mon, arm, keys, inflight_ok):
                 if arm == "crash" and keys.get("fault") == "crash.process" and mon.acked.get(p):
                     w.violation(PROP, "O3.acked_checkpoint_vanished", f"{p} had been saved successfully {len(mon.acked[p])} time(s) but after a process crash during a later save nothing is left under that name "
                                 f"(files present: {sorted(x.split('/')[-1] for x in present)})", **keys)
+                if arm == "ioerr" and mon.acked.get(p):
+                    # an I/O error reported by a later save must not cost the user the checkpoint an earlier save had acknowledged
+                    w.violation(PROP, "O4.acked_checkpoint_destroyed_by_failed_save", f"{p} had been saved successfully {len(mon.acked[p])} time(s); a later save to the same name failed with an I/O error "
+                                f"and now nothing is left under that name (files present: {sorted(x.split('/')[-1] for x in present)})", **keys)
                 continue
             res["checked"] += 1
             cands = []
@@ -607,6 +611,10 @@ def cases(seed, tier):
         r = random.Random(sch.np_seed(f"io{k}"))
         case = base_case(r, sch.np_seed(f"i{k}"), "ioerr")
         case["faults"] = [dict(kind="io.error", window=r.randrange(12), op=r.randrange(12), errno=r.choice([28, 5, 13, 1]))]
+        if r.random() < 0.4:
+            # the failing save is a re-save over a checkpoint that an earlier save acknowledged (window -1 = the last save of the run)
+            case["extra_saves"] = ["manual", "manual_again"]
+            case["faults"][0]["window"] = -1
         out.append(case)
     return out
 
